@@ -330,6 +330,80 @@ def check_lcs(G, SG, nm, em, cache=None):
     return None, info
 
 
+def lcs_oracle(G, SG, nm, em):
+    node_ok = (lambda g, p: G.nodes[g].get('c') == SG.nodes[p].get('c')) if nm else (lambda g, p: True)
+    edge_ok = (lambda g1, g2, p1, p2: G.edges[g1, g2].get('e') == SG.edges[p1, p2].get('e')) if em else None
+    for size in range(min(len(SG), len(G)), 0, -1):
+        found = set()
+        for sub in itertools.combinations(list(SG.nodes), size):
+            H = SG.subgraph(sub)
+            for m in match.induced_isos(G, H, node_ok, edge_ok):
+                found.add(frozenset((g, p) for p, g in m.items()))
+        if found:
+            return size, found
+    return 0, set()
+
+
+def check_history(G, SG, nm, em, rnd, cache=None):
+    """One matcher object asked several questions in a row: every answer must be the answer a fresh object gives (= the
+    oracle's).  State kept on the object between calls (cached candidates, partitions, symmetry) must not leak."""
+    from vermouth.ismags import ISMAGS
+    node_match, edge_match = matchers(nm, em)
+    own = oracle_isos(G, SG, nm, em)
+    auts = oracle_auts(SG, nm, em)
+    if len(own) * len(auts) > 50000:
+        return 'skip', {}
+    k, allmax = lcs_oracle(G, SG, nm, em)
+    info = {'isos': len(own), 'auts': len(auts), 'max_size': k, 'max_count': len(allmax)}
+
+    def cls(m):
+        return frozenset(frozenset((g, a[s]) for g, s in m) for a in auts)
+    classes = {cls(m) for m in own}
+    I = ISMAGS(G, SG, node_match=node_match, edge_match=edge_match, cache=cache)
+    calls = [rnd.choice(['iso', 'iso-sym', 'sub-bool', 'iso-bool', 'lcs', 'lcs-sym']) for _ in range(rnd.randint(2, 5))]
+    if rnd.random() < 0.5:
+        calls = [rnd.choice(['iso', 'iso-sym', 'sub-bool', 'iso-bool']), rnd.choice(['lcs', 'lcs-sym'])] + calls[:2]
+    info['calls'] = calls
+    for i, c in enumerate(calls):
+        tag = 'history/%s-after-%s/' % (c, calls[i - 1] if i else 'nothing')
+        if c in ('iso', 'iso-sym'):
+            out = list(I.find_isomorphisms(symmetry=(c == 'iso-sym')))
+            if any(not sound(G, SG, m, nm, em) for m in out):
+                return (tag + 'unsound', {'calls': calls[:i + 1]}), info
+            got = {fz(m) for m in out}
+            if len(got) != len(out):
+                return (tag + 'duplicate', {'calls': calls[:i + 1]}), info
+            if c == 'iso' and len(SG) and got != own:
+                return (tag + 'incomplete', {'calls': calls[:i + 1], 'yielded': len(got), 'expected': len(own)}), info
+            if c == 'iso-sym' and len(SG):
+                sc = [cls(m) for m in got]
+                if len(set(sc)) != len(sc) or set(sc) != classes:
+                    return (tag + 'classes', {'calls': calls[:i + 1], 'yielded': len(sc), 'classes': len(classes)}), info
+        elif c == 'sub-bool':
+            if bool(I.subgraph_is_isomorphic()) != bool(own):
+                return (tag + 'wrong', {'calls': calls[:i + 1], 'expected': bool(own)}), info
+        elif c == 'iso-bool':
+            if bool(I.is_isomorphic()) != (bool(own) and len(G) == len(SG)):
+                return (tag + 'wrong', {'calls': calls[:i + 1]}), info
+        else:
+            out = list(I.largest_common_subgraph(symmetry=(c == 'lcs-sym')))
+            for m in out:
+                if not sound(G, SG, m, nm, em):
+                    return (tag + 'not-a-common-induced-subgraph', {'calls': calls[:i + 1], 'mapping': sorted(m.items())}), info
+                if len(m) != k:
+                    return (tag + 'not-maximum', {'calls': calls[:i + 1], 'size': len(m), 'maximum': k}), info
+            if bool(out) != (k > 0):
+                return (tag + 'nothing-returned', {'calls': calls[:i + 1], 'maximum': k}), info
+            ret = {fz(m) for m in out}
+            if c == 'lcs' and ret != allmax:
+                return (tag + 'maximum-missed', {'calls': calls[:i + 1], 'returned': len(ret), 'expected': len(allmax)}), info
+            if c == 'lcs-sym':
+                for m in allmax:
+                    if not any(frozenset((g, a[s]) for g, s in m) in ret for a in auts):
+                        return (tag + 'maximum-missed', {'calls': calls[:i + 1], 'missing': sorted(m), 'returned': len(ret)}), info
+    return None, info
+
+
 # witness pairs of earlier findings, run on every invocation (pattern nodes, pattern edges, host nodes, host edges;
 # edge colour as third item, all node colours equal)
 PINNED = [
@@ -388,11 +462,15 @@ def run_case(params):
         if (nm or em) and len(SG) <= 8:
             prev = (SG, nm, em, kind, lcs)
         cache = shared_cache if use_cache else None
+        # a quarter of the generated LCS-sized pairs are put to ONE matcher object as a sequence of different questions
+        hist = j >= len(pinned) and lcs and rnd.random() < 0.5
         b.total += 1
         desc = None
         try:
             with harness.sub_alarm(limit):
-                if lcs:
+                if hist:
+                    p, info = check_history(G, SG, nm, em, rnd, cache)
+                elif lcs:
                     p, info = check_lcs(G, SG, nm, em, cache)
                 else:
                     p, info = check_iso(G, SG, nm, em, rnd, cache)
@@ -414,7 +492,7 @@ def run_case(params):
             continue
         b.hits += 1
         b.feat({'with_shared_symmetry_cache': int(cache is not None), 'recoloured_repeat_of_previous_pattern': int(kind.startswith('recoloured')),
-                'lcs_cases': int(lcs), 'iso_cases': int(not lcs), 'node_coloured': int(nm), 'edge_coloured': int(em),
+                'lcs_cases': int(lcs and not hist), 'iso_cases': int(not lcs), 'one_object_call_histories': int(hist), 'node_coloured': int(nm), 'edge_coloured': int(em),
                 'pattern_disconnected': int(len(SG) > 0 and not nx.is_connected(SG)),
                 'pattern_kind_' + kind.split(':')[0]: 1})
         if p:
